@@ -39,4 +39,7 @@ theorem export_without_option_is_raw :
     framing { exportSetsRecordMarking := false, portmapperSetsRecordMarking := true,
               acceptLoopBranchesOnOption := true } .export = .raw := by decide
 
+/-- regenerated from the source on every run: StartWithPortmapper computes the ports it registers after Listen has bound -/
+theorem gen_portmapper_registers_bound_port : Gen.portmapperRegistersAfterListen = true := by decide
+
 end Props.C28
